@@ -842,8 +842,8 @@ pub fn run_c13(tier: Tier) -> ! {
         // quick: one poll stall at every effective poll on the explicit-TTR configurations of up to three stations
         // configurations with the fine poll grid; thorough: on every configuration
         let quick_k1 = sc.addrs.len() <= 3 && sc.ttr != None && sc.divs == vec![16];
-        // (thorough: everywhere except the Tslot/8-only grid with the default TTR, which adds little)
-        let thorough_k1 = tier == Tier::Thorough && !(sc.divs == vec![8] && sc.ttr.is_none());
+        // (thorough: every explicit-TTR configuration except the Tslot/8-only grid)
+        let thorough_k1 = tier == Tier::Thorough && sc.divs != vec![8] && sc.ttr.is_some();
         let k = if thorough_k1 || quick_k1 { 1u8 } else { 0 };
         let mut base = W3Run::new(&cfg);
         c13_explore(sc, &cfg, &mut base, k, &tally);
@@ -858,7 +858,7 @@ pub fn run_c13(tier: Tier) -> ! {
     ev.rule = "every (station set, application load pattern, TTR, poll pattern, slot time) configuration inside the latency envelope on the default schedule (thorough: plus every placement of one poll stall at every effective poll); passive responders answer after 11 bit, after Tslot-33 bit, or never; oracle on the bus trace: message cycles after the hold time, rotation bound, starvation".into();
     ev.samples = scenarios.iter().step_by(scenarios.len() / 3 + 1).map(|s| json!(format!("{:?}", s))).collect();
     ev.exhaustive = true;
-    ev.bounds = json!({"scenarios": scenarios.len(), "stall_budget": tier.pick("1 on the <=3-station explicit-TTR Tslot/16 configurations, 0 elsewhere", "1 everywhere except Tslot/8-only with the default TTR")});
+    ev.bounds = json!({"scenarios": scenarios.len(), "stall_budget": tier.pick("1 on the <=3-station explicit-TTR Tslot/16 configurations, 0 elsewhere", "1 on every explicit-TTR configuration except the Tslot/8-only grid, 0 with the default TTR")});
     let outcomes = tally.outcomes.lock().unwrap().clone();
     ev.distinct_outcomes = outcomes.len() as u64;
     ev.extra.insert("outcomes".into(), json!(outcomes));
